@@ -54,7 +54,106 @@ type sched struct {
 }
 
 func allChecks() []*checkDef {
-	return []*checkDef{checkC14()}
+	return []*checkDef{checkC01(), checkC12(), checkC14()}
+}
+
+type seq struct {
+	Name string `json:"name"`
+	cp
+	Alphabet []string `json:"alphabet"`
+	Depth    int      `json:"depth"`
+	Reopen   bool     `json:"reopen"`
+}
+
+var seqAlphabet = []string{"S:a:1", "S:a:7", "S:b:7", "S:c:7", "Se:a:7", "Sf:a:7:3", "S0:a", "G:a", "D:a", "U:a", "T", "A:3600001"}
+
+func checkC01() *checkDef {
+	return &checkDef{
+		ID: "C01", Title: "Served bodies are complete, unmixed origin bodies of the requested resource", Level: "model_checking",
+		LevelText: "Cache API layer: all schedules (K preemptions) of a reader that reads in two chunks (with a scheduling point between them and a ReadAt cross-check) against overwrite, failing/empty refresh, delete and a janitor cycle on the same and a colliding key, both backends; every body handed out must be byte-identical to the self-describing body of the (resource, version) its metadata names, with matching size, and a read that began after a replacement/removal completed must not return the replaced version (call/return history check).",
+		LevelNote: "Trusted: instrumenter seams; reads of an entry handle are atomic between harness yields (two chunks + ReadAt). Bounds: 2-3 threads, K preemptions, body sizes 20-40 bytes.",
+		Technique: "stateless model checking of the implementation (preemption-bounded schedule enumeration) with a history oracle over self-describing bodies; exhaustive operation-history and fault-point enumeration at the proxy layer",
+		DesignRef: "DESIGN.md section 4 C01",
+		Rule:        "all schedules within K/F/E of each reader/writer/deleter/janitor scenario (distinct by choice sequence; non-trivial = distinct outcome digest of returned versions and end state)",
+		Assumptions: commonAssumptions,
+		Runs: func(tier string) []run {
+			k := 2
+			shards := []int{1, 32}
+			if tier == "thorough" {
+				k = 3
+				shards = []int{1, 2, 32}
+			}
+			var ps []sched
+			for _, be := range []string{"memory", "file"} {
+				for _, sh := range shards {
+					base := cp{Backend: be, Shards: sh, Limit: 100000, Interval: 1000}
+					name := func(s string) string { return s + "/" + be + "/shards=" + itoa(sh) }
+					chk := []string{"integrity"}
+					ps = append(ps, sched{Name: name("read-vs-overwrite"), cp: base, Prop: "C01", Checks: chk,
+						Init: []string{"S:a:40"}, Threads: [][]string{{"G:a", "G:a"}, {"S:a:20"}}, Final: []string{"G:a"}})
+					ps = append(ps, sched{Name: name("read-vs-overwrite-delete"), cp: base, Prop: "C01", Checks: chk,
+						Init: []string{"S:a:40"}, Threads: [][]string{{"G:a"}, {"S:a:20"}, {"D:a"}}, Final: []string{"G:a"}})
+					ps = append(ps, sched{Name: name("read-vs-failed-refresh"), cp: base, Prop: "C01", Checks: chk,
+						Init: []string{"S:a:40"}, Threads: [][]string{{"G:a", "G:a"}, {"Sf:a:40:10"}}, Final: []string{"G:a"}})
+					ps = append(ps, sched{Name: name("read-vs-empty-refresh"), cp: base, Prop: "C01", Checks: chk,
+						Init: []string{"S:a:40"}, Threads: [][]string{{"G:a", "G:a"}, {"S0:a"}}, Final: []string{"G:a"}})
+					ps = append(ps, sched{Name: name("read-vs-janitor-vs-refresh"), cp: base, Prop: "C01", Checks: chk,
+						Init: []string{"Se:a:40", "T"}, Threads: [][]string{{"G:a"}, {"S:a:20"}}, Final: []string{"Q", "G:a"}})
+					ps = append(ps, sched{Name: name("read-vs-colliding-key"), cp: base, Prop: "C01", Checks: chk,
+						Init: []string{"S:a:40", "S:b:30"}, Threads: [][]string{{"G:a"}, {"S:b:20"}, {"G:b"}}, Final: []string{"G:a", "G:b"}})
+				}
+			}
+			return []run{{Pkg: "./cache", Scenario: "cache/sched", Params: ps, K: k, E: 1, Horizon: 5000}}
+		},
+	}
+}
+
+func checkC12() *checkDef {
+	return &checkDef{
+		ID: "C12", Title: "Reported cache size and entry count equal what is actually stored", Level: "model_checking",
+		LevelText: "Explicit-state exploration of the real cache: every operation history over a 12-operation alphabet (stores of two sizes on colliding and distinct shards, overwrite, expired store, failing and empty source reader, get, delete, metadata update, janitor cycle, clock advance past expiry) up to depth 5 (6 thorough) on both backends, with the accounting equalities (internal size, map length, exported metrics, bytes actually readable, directory listing) checked after every step, plus reopening the directory after every history; every source-reader failure offset; and all schedules (K=2) of concurrent operations with a janitor cycle ending in quiescence.",
+		LevelNote: "Trusted: instrumenter seams, virtual clock, the harness's internal view of the cache maps. Bounds: 3 keys, 2 sizes, depth 5/6, limit 10 bytes; concurrent part K preemptions. Crash points are modelled as abandoning the instance after any history and constructing a new one on the same directory.",
+		Technique: "explicit-state enumeration of operation histories on the implementation with invariant checking per step + preemption-bounded schedule enumeration + source-failure point enumeration",
+		DesignRef: "DESIGN.md section 4 C12",
+		Rule:        "all sequences over the operation alphabet up to the depth bound on a fresh instance each (distinct by sequence; non-trivial = distinct final retrievable-set/size digest), and all schedules within K/F/E of the concurrent scenarios",
+		Assumptions: commonAssumptions,
+		Runs: func(tier string) []run {
+			depth, k := 5, 2
+			if tier == "thorough" {
+				depth, k = 6, 3
+			}
+			var seqs []seq
+			for _, be := range []string{"memory", "file"} {
+				seqs = append(seqs, seq{Name: "histories/" + be, cp: cp{Backend: be, Shards: 2, Limit: 10, Interval: 1000}, Alphabet: seqAlphabet, Depth: depth, Reopen: be == "file"})
+				// every failure offset of the source reader, on an absent and on a present key
+				var fa []string
+				for b := 0; b <= 7; b++ {
+					fa = append(fa, "Sf:a:7:"+itoa(b))
+				}
+				fa = append(fa, "S:a:5", "G:a", "D:a", "T")
+				seqs = append(seqs, seq{Name: "reader-failures/" + be, cp: cp{Backend: be, Shards: 1, Limit: 100, Interval: 1000}, Alphabet: fa, Depth: 3, Reopen: be == "file"})
+			}
+			var ps []sched
+			for _, be := range []string{"memory", "file"} {
+				for _, sh := range []int{1, 32} {
+					base := cp{Backend: be, Shards: sh, Limit: 500, Interval: 1000}
+					name := func(s string) string { return s + "/" + be + "/shards=" + itoa(sh) }
+					ps = append(ps, sched{Name: name("store-delete-tick"), cp: base, Prop: "C12", Checks: []string{"counters"},
+						Init:    []string{"S:a:300", "Se:c:100", "T"},
+						Threads: [][]string{{"S:b:100"}, {"D:a", "S:c:50"}},
+						Final:   []string{"Q", "T", "Q"}})
+					ps = append(ps, sched{Name: name("overwrite-vs-get"), cp: base, Prop: "C12", Checks: []string{"counters"},
+						Init:    []string{"S:a:100"},
+						Threads: [][]string{{"S:a:50"}, {"G:a", "D:a"}},
+						Final:   []string{"T", "Q"}})
+				}
+			}
+			return []run{
+				{Pkg: "./cache", Scenario: "cache/seq", Params: seqs},
+				{Pkg: "./cache", Scenario: "cache/sched", Params: ps, K: k, E: 1, Horizon: 5000},
+			}
+		},
+	}
 }
 
 func checkC14() *checkDef {
